@@ -18,6 +18,7 @@ inductive Mode
   | alloc (st : AllocSt) (stack : List AllocSt)
   | frame (st : FrameSt)
   | conn (run : ConnRun)
+  | gates
   | tables (name : String)
   | codec (st : CodecSt)
 
@@ -32,6 +33,7 @@ partial def loop (h : IO.FS.Stream) (ln : Nat) (m : Mode) (r : Report) : IO Repo
       match allocStart rest with
       | some st => loop h (ln + 1) (.alloc st []) { r with traces := r.traces + 1 }
       | none => loop h (ln + 1) .none (r.mdiff "parse" s!"line {ln}: bad trace header `{line}`")
+    | _ :: "gates" :: _ => loop h (ln + 1) .gates { r with traces := r.traces + 1 }
     | _ :: "conn" :: rest =>
       match connStart rest with
       | some cs => loop h (ln + 1) (.conn { cs := cs }) { r with traces := r.traces + 1 }
@@ -57,12 +59,17 @@ partial def loop (h : IO.FS.Stream) (ln : Nat) (m : Mode) (r : Report) : IO Repo
         let (st', r') := allocLine st ln (line.drop 2).toString r
         loop h (ln + 1) (.alloc st' stack) r'
       else loop h (ln + 1) m (r.mdiff "parse" s!"line {ln}: unexpected `{line}`")
+    | .gates =>
+      if line = "END" then loop h (ln + 1) .none r
+      else loop h (ln + 1) m (gatesLine ln line r)
     | .conn run =>
       if line = "END" then loop h (ln + 1) .none r
       else if line.startsWith "X " then
         let (run', r') := connLine run ln (line.drop 2).toString r
         loop h (ln + 1) (.conn run') r'
-      else if line.startsWith "Y " then loop h (ln + 1) m (connY run ln (line.drop 2).toString r)
+      else if line.startsWith "Y " then
+        let (run', r') := connY run ln (line.drop 2).toString r
+        loop h (ln + 1) (.conn run') r'
       else loop h (ln + 1) m (r.mdiff "parse" s!"line {ln}: unexpected `{line.take 60}`")
     | .frame st =>
       if line = "END" then loop h (ln + 1) .none (frameEnd st ln r)
